@@ -96,6 +96,16 @@ Batch(szs) ==
                    obs |-> [first |-> first, end |-> End + Len(szs), floor |-> floor,
                             log |-> Proj \o [i \in 1..Len(es) |-> [index |-> es[i].index, term |-> es[i].term, id |-> es[i].id]]]])
 
+\* a replicated batch whose first index is not the end of the log - it overlaps stored entries (no delete-from came first)
+\* or leaves a gap - is refused as a whole and changes nothing: the stored entries keep their term and payload, and
+\* nothing of the batch becomes readable (a batch acknowledged over other entries would return those, not the acknowledged ones)
+BatchBad(start, szs) ==
+    /\ start # End /\ start >= first /\ Len(log) > 0 /\ (floor > first => start > floor)
+    /\ LET es == [i \in 1..Len(szs) |-> Entry(start + i - 1, curTerm, nextId + i - 1, szs[i])]
+       IN /\ UNCHANGED <<first, log, floor, curTerm>>
+          /\ nextId' = nextId + Len(szs)
+          /\ Step([op |-> "batch", entries |-> es, res |-> "index_error", obs |-> Obs])
+
 \* delete_logs_from(k): a new leader's term follows (conflict truncation)
 \* (entries up to the compaction index are committed; Raft never truncates those)
 Truncate(k) ==
@@ -129,6 +139,7 @@ Next ==
     \/ \E sz \in Sizes : AppendOk(sz)
     \/ \E d \in {1, 2} : \E sz \in Sizes : AppendBad(d, sz)
     \/ \E n \in 1..MaxBatch : \E sz \in Sizes : Batch([i \in 1..n |-> sz])
+    \/ \E st \in {x \in first..(End + 1) : x + 2 >= End} : \E n \in 2..MaxBatch : \E sz \in Sizes : BatchBad(st, [i \in 1..n |-> sz])
     \/ \E k \in 0..(MaxLen + 6) : Truncate(k)
     \/ Compact
     \/ BumpTerm
@@ -141,6 +152,7 @@ Spec == Init /\ [][Next]_vars
 NextTrunc ==
     \/ \E sz \in Sizes : AppendOk(sz)
     \/ \E n \in 2..MaxBatch : \E sz \in Sizes : Batch([i \in 1..n |-> sz])
+    \/ \E st \in {x \in first..End : x + 2 >= End} : \E n \in 2..MaxBatch : \E sz \in Sizes : BatchBad(st, [i \in 1..n |-> sz])
     \/ \E k \in 0..(MaxLen + 6) : (k <= End /\ Truncate(k))
     \/ Compact
     \/ Reopen
